@@ -34,11 +34,12 @@ impl DcpsDomainParticipant {
         Ok(status)
     }
 
-    #[tracing::instrument(skip(self))]
+    #[tracing::instrument(skip(self, runtime))]
     pub fn set_topic_qos(
         &mut self,
         topic_name: String,
         topic_qos: QosKind<TopicQos>,
+        runtime: &impl DdsRuntime,
     ) -> DdsResult<()> {
         let qos = match topic_qos {
             QosKind::Default => self.domain_participant.default_topic_qos.clone(),
@@ -68,6 +69,10 @@ impl DcpsDomainParticipant {
         }
 
         topic.qos = qos;
+
+        if topic.enabled {
+            self.announce_topic(topic_name, runtime);
+        }
         Ok(())
     }
 
